@@ -39,7 +39,7 @@ def bounds(tier):
     }
 
 
-FACTORIES = ["coupling", "maf", "bnaf", "planar", "tri_spline", "coupling_rqs", "maf_rqs", "planar_tanh", "bnaf_d2"]
+FACTORIES = ["coupling", "maf", "bnaf", "planar", "tri_spline", "coupling_rqs", "maf_rqs", "planar_tanh", "bnaf_d2", "maf_d0"]
 
 
 def enumerate_cases(tier, seed):
@@ -102,6 +102,8 @@ def build_factory(name, invert, cond, seed, level, dim=2, layers=2, scale=0.5):
                                 transformer=B.RationalQuadraticSpline(knots=3, interval=2))
     elif name == "maf":
         d = flows.masked_autoregressive_flow(key, base_dist=base, cond_dim=cond, flow_layers=layers, nn_width=4, invert=invert)
+    elif name == "maf_d0":  # linear conditioners (nn_depth=0): the single masked layer is input and output layer at once
+        d = flows.masked_autoregressive_flow(key, base_dist=base, cond_dim=cond, flow_layers=layers, nn_width=4, nn_depth=0, invert=invert)
     elif name == "maf_rqs":
         d = flows.masked_autoregressive_flow(key, base_dist=base, cond_dim=cond, flow_layers=layers, nn_width=4, invert=invert,
                                              transformer=B.RationalQuadraticSpline(knots=3, interval=2))
